@@ -11,6 +11,7 @@ Inductive oevent :=
 | OResult (id payload : json)
 | OError (id : json) (code descr : string) (details : json)
 | OEnqueue (m : msg)
+| OWriteFailed
 | OEscape.
 
 Definition opt_same (a b : option json) : bool :=
@@ -42,6 +43,7 @@ Definition event_agree (e : event) (o : oevent) : bool :=
       end
   | EvEnqueue m, OEnqueue m' => msg_same m m'
   | EvEscape, OEscape => true
+  | EvWriteFailed, OWriteFailed => true
   | _, _ => false
   end.
 
@@ -61,7 +63,7 @@ Definition keep_e (v : view) (e : event) : bool :=
   | VFull, _ => true
   | VC01, (EvResult _ _ | EvError _ _ _ | EvEscape) => true
   | VC05, (EvHandler _ _ _ | EvResult _ _ | EvError _ _ _ | EvEscape) => true
-  | VC07, (EvHandler _ _ _ | EvAfter _ _ _ | EvResult _ _) => true
+  | VC07, (EvHandler _ _ _ | EvAfter _ _ _ | EvResult _ _ | EvWriteFailed) => true
   | VC16, (EvHandler _ _ _ | EvResult _ _ | EvError _ _ _) => true
   | VC17, (EvHandler _ _ _ | EvResult _ _ | EvError _ _ _) => true
   | _, _ => false
@@ -71,7 +73,7 @@ Definition keep_o (v : view) (o : oevent) : bool :=
   | VFull, _ => true
   | VC01, (OResult _ _ | OError _ _ _ _ | OEscape) => true
   | VC05, (OHandler _ _ _ | OResult _ _ | OError _ _ _ _ | OEscape) => true
-  | VC07, (OHandler _ _ _ | OAfter _ _ _ | OResult _ _) => true
+  | VC07, (OHandler _ _ _ | OAfter _ _ _ | OResult _ _ | OWriteFailed) => true
   | VC16, (OHandler _ _ _ | OResult _ _ | OError _ _ _ _) => true
   | VC17, (OHandler _ _ _ | OResult _ _ | OError _ _ _ _) => true
   | _, _ => false
@@ -123,10 +125,10 @@ Fixpoint agree_list (v : view) (es : list event) (os : list oevent) : bool :=
   | _, _ => false
   end.
 
-Record dcase := mkD { dc_cfg : cfg; dc_frame : loads_outcome; dc_obs : list oevent }.
+Record dcase := mkD { dc_cfg : cfg; dc_send_ok : bool; dc_frame : loads_outcome; dc_obs : list oevent }.
 
 Definition dispatch_model (c : dcase) : list event :=
-  route_message shipped actions_of (dc_cfg c) (dc_frame c).
+  route_message_io shipped actions_of (dc_send_ok c) (dc_cfg c) (dc_frame c).
 
 Definition dagree (v : view) (c : dcase) : bool :=
   agree_list v (filter (keep_e v) (dispatch_model c)) (filter (keep_o v) (dc_obs c)).
